@@ -847,12 +847,30 @@ def ceil(pid):
                 if blk["cleanup"]:
                     continue
                 for i, st in enumerate(blk["stmts"]):
-                    if st["s"] != "assign" or st["rv"]["r"] != "binop" or not (st["rv"]["op"].startswith("Add") or st["rv"]["op"].startswith("Sub")):
+                    if st["s"] != "assign" or st["rv"]["r"] != "binop" or not (st["rv"]["op"].startswith("Add") or st["rv"]["op"].startswith("Sub") or st["rv"]["op"].startswith("Div")):
                         continue
                     if st["span"].get("macros"):
                         continue
                     pr = pr or Prov(f)
                     p = pr._def((bb, i, st), 0, ())
+                    if st["rv"]["op"].startswith("Div"):
+                        # (x + y) / y is floor(x / y) + 1 in disguise (the rounding-up idiom is (x + y - 1) / y)
+                        from prov import _split_top as _st3
+                        md = re.match(r"^Div\((.*)\)$", p)
+                        pd = _st3(md.group(1)) if md else []
+                        ma = re.match(r"^Add\((.*)\)$", pd[0]) if len(pd) == 2 else None
+                        pa = _st3(ma.group(1)) if ma else []
+                        if len(pa) == 2 and pd[1] in pa and not re.match(r"^const:[01]$", pd[1]):
+                            x = pa[0] if pa[1] == pd[1] else pa[1]
+                            y = pd[1]
+                            n += 1
+                            g = g or _guards(ctx, f)
+                            atoms = g.atoms_at(("s", bb, i))
+                            if any(re.match(r"^\((Ne|Gt|Eq)\(Rem\(%s,%s\),const:0\)\)$" % (re.escape(x), re.escape(y)), a) for a in atoms):
+                                res.ok({"function": f.path, "expression": p[:80], "remainder_tested": True}, nontrivial=True)
+                            else:
+                                res.fail(Finding(res.rule, "R-CEIL/%s/sum-over-divisor" % f.path, "%s counts units as (%s + %s) / %s: that is floor(x / y) + 1, one unit too many for an exact multiple (rounding up is (x + y - 1) / y)" % (f.path.split("::")[-1], x[:40], y[:40], y[:40]), f, st["span"]))
+                        continue
                     if st["rv"]["op"].startswith("Sub"):
                         # `y - x % y` as "what is left of the last unit": a whole unit, not nothing, when x is a multiple
                         m2 = re.match(r"^Sub\((.*)\)$", p)
@@ -1143,7 +1161,12 @@ def namelimit(pid):
                     continue
                 seen.add(expr)
                 n += 1
-                if "encode_utf16(" in expr or "len_utf16" in expr:
+                # the largest accepted length: `len > c` accepts up to c, `len >= c` up to c - 1
+                cval = {"const:31": 31, "const:32": 32, "Add(const:31,const:1)": 32}[m.group(3)]
+                accepted = cval if m.group(1) == "Gt" else cval - 1
+                if ("encode_utf16(" in expr or "len_utf16" in expr) and accepted != 31:
+                    res.fail(Finding(res.rule, "R-NAMELIMIT/%s/limit-off-by-one" % f.path, "validate_name accepts names of up to %d UTF-16 code units; the format's limit (and what the 32-unit field holds beside its terminator) is MAX_NAME_LEN = 31: %s" % (accepted, "valid 31-unit names are refused" if accepted < 31 else "a 32-unit name gets through to the serialiser"), f, c.term["span"]))
+                elif "encode_utf16(" in expr or "len_utf16" in expr:
                     res.ok({"function": f.path, "line": c.line, "length_measured_as": expr[:100]}, nontrivial=True)
                 elif ("chars(" in expr and ("count(" in expr or "len(" in expr)) or re.search(r"(^|\()len\(param:name\)|<impl str>::len\(param:name\)|as_bytes\(param:name\)", expr):
                     res.fail(Finding(res.rule, "R-NAMELIMIT/%s/length-not-in-utf16-units" % f.path, "validate_name refuses over-long names by %s, which is not a count of UTF-16 code units: a name of at most 31 chars but more than 31 units passes, and the 32-unit name field cannot hold it (the entry is refused or truncated after it was allocated and linked)" % expr[:100], f, c.term["span"]))
@@ -1417,5 +1440,120 @@ def keepcount(pid):
                 else:
                     res.fail(Finding(res.rule, "R-KEEPCOUNT/%s/cut-at-wrong-index" % f.path, "%s is to keep %s sectors (the guard is %s < sector_ids.len()) but cuts the chain after index %s instead of %s - 1: one sector too many stays linked (a later grow exposes its old bytes) or one too few" % (f.path.split("::")[-1], ns[0][:50], ns[0][:50], k[:50], ns[0][:50]), f, c.term["span"]))
         res.floor("chain cuts", n, ctx.table("floors").get("keepcount_sites", 0))
+        return res
+    return run
+
+
+def seekend(pid):
+    """R-SEEKEND: a position equal to the length is a legal position (that is where appending starts, and where a
+    window that begins at the end of the stream is flushed to).  The seek implementations of Chain, MiniChain, Sector
+    and Stream refuse only positions GREATER than the length: no refusal there lies behind `position >= length`
+    or `position == length`."""
+    def run(ctx):
+        from rules_api import refusals
+        res = RuleResult("R-SEEKEND(%s)" % pid, "no seek implementation refuses a position equal to the length (refusals test `> len`, never `>= len`)")
+        n = 0
+        for f in ctx.fx.fns.values():
+            if f.d.get("impl_trait") != "std::io::Seek" or f.d["name"] != "seek" or not re.search(r"internal::(chain|minichain|sector|stream)::", f.path):
+                continue
+            g = _guards(ctx, f)
+            v = view(ctx, f)
+            pg = v.pg
+            refs = {("t", c.bb) for (c, kind) in refusals(ctx, f)}
+            okret = set()
+            for bb2, blk2 in enumerate(f.blocks):
+                for i2, st2 in enumerate(blk2["stmts"]):
+                    if st2["s"] == "assign" and st2["place"]["local"] == 0 and st2["rv"]["r"] == "aggregate" and st2["rv"].get("variant") == "Ok":
+                        okret.add(("s", bb2, i2))
+            seen_e = set()
+            for b2, k2, val2, vals2 in _edges(f):
+                for a in g.describe_all(b2, val2, vals2):
+                    m = re.match(r"^\((Gt|Ge|Eq)\((.*),((?:Mini)?Chain::len\(param:self\)|Sector::len\(param:self\)|param:self\.total_len)\)\)$", a)
+                    if not m:
+                        continue
+                    en = pg.edge_node(b2, f.succ(b2)[k2])
+                    if not en or en[0] in seen_e:
+                        continue
+                    r_ = pg.reach(en)
+                    # an edge that only leads to refusals
+                    if not (refs & r_) or (okret & r_):
+                        continue
+                    seen_e.add(en[0])
+                    n += 1
+                    if m.group(1) == "Gt":
+                        res.ok({"function": f.path, "refuses": a[:90]}, nontrivial=True)
+                    else:
+                        res.fail(Finding(res.rule, "R-SEEKEND/%s/end-position-refused" % f.path, "%s refuses the position that equals the length (%s): nothing can be appended at the end of the chain / stream, and a buffered window that starts exactly at the end cannot be written back" % (f.path.split("::")[-1], a[:100]), f, f.blocks[b2]["term"]["span"]))
+        res.floor("upper-bound refusals of seek implementations", n, ctx.table("floors").get("seekend_sites", 0))
+        return res
+    return run
+
+
+def seekbound(pid):
+    """R-SEEKBOUND: Stream::seek validates its target before it touches anything: the new position it computes is at
+    most total_len in every arm.  For `SeekFrom::Start(d)` that is `d <= total_len`; for a forward `Current(d)` it is
+    `d <= total_len - position` (comparing d with total_len itself lets position + d run past the end: the call
+    returns Ok, flushes the buffered bytes and leaves the handle beyond the stream)."""
+    def run(ctx):
+        res = RuleResult("R-SEEKBOUND(%s)" % pid, "every value Stream::seek stores as the new position is bounded by total_len through a dominating comparison of the right operands")
+        n = 0
+        for f in ctx.fx.fns.values():
+            if f.d.get("impl_trait") != "std::io::Seek" or f.d["name"] != "seek" or "internal::stream::Stream" not in f.path:
+                continue
+            pr = Prov(f)
+            g = _guards(ctx, f)
+            names = {nm: l for l, nm in f.debug_names().items()}
+            l = names.get("new_pos")
+            if l is None:
+                continue
+            for d in pr.defs.get(l, []):
+                node = ("t", d[0]) if d[1] == "t" else ("s", d[0], d[1])
+                val = pr._def(d, 1, (l,))
+                atoms = g.atoms_at(node)
+                from prov import _split_top
+                for alt in (val[4:-1].split("|") if val.startswith("phi(") and val.endswith(")") else [val]):
+                    n += 1
+                    ok = None
+                    m = re.match(r"^Add\((.*)\)$", alt)
+                    if m:
+                        ps = _split_top(m.group(1))
+                        if len(ps) == 2:
+                            p_, d_ = ps
+                            ok = any(a in ("(Le(%s,Sub(param:self.total_len,%s)))" % (d_, p_), "(Le(%s,Sub(param:self.total_len,%s)))" % (p_, d_), "(Le(cast(%s),Sub(param:self.total_len,%s)))" % (d_, p_)) for a in atoms) or \
+                                any(re.match(r"^\(Le\((cast\()?%s\)?,Sub\(param:self\.total_len,%s\)\)\)$" % (re.escape(d_), re.escape(p_)), a) for a in atoms)
+                    elif re.match(r"^Sub\(", alt):
+                        ok = True       # a difference of two positions within the stream
+                    else:
+                        ok = any(re.match(r"^\(Le\(%s,param:self\.total_len\)\)$" % re.escape(alt), a) for a in atoms)
+                    if ok:
+                        res.ok({"function": f.path, "new_position": alt[:80]}, nontrivial=True)
+                    else:
+                        res.fail(Finding(res.rule, "R-SEEKBOUND/%s/target-not-bounded" % f.path, "Stream::seek computes the new position %s without a dominating comparison that keeps it within total_len (conditions there: %s): an out-of-range seek returns Ok, writes the buffered bytes back and leaves the handle past the end of the stream" % (alt[:80], "; ".join(a[:70] for a in atoms[:3])), f))
+        res.floor("new-position definitions in Stream::seek", n, ctx.table("floors").get("seekbound_sites", 0))
+        return res
+    return run
+
+
+def wholetable(pid):
+    """R-WHOLE: the open-time validators examine (and, in permissive mode, repair) EVERY element of the tables they are
+    responsible for: the FAT sectors listed in the DIFAT, the DIFAT sectors, every FAT / MiniFAT cell, every
+    directory entry.  An iteration narrowed by skip / take / step_by / filter or a sub-slice leaves part of a table
+    unchecked - strict open then accepts a deviation in the skipped part, and permissive open does not repair it."""
+    def run(ctx):
+        res = RuleResult("R-WHOLE(%s)" % pid, "no iteration over self.difat / self.difat_sector_ids / self.fat / self.minifat / self.dir_entries in a validate function is narrowed by skip, take, step_by, filter, nth or a sub-slice")
+        n = 0
+        tables = r"param:self\.(difat|difat_sector_ids|fat|minifat|dir_entries)\b"
+        for f in ctx.fx.fns.values():
+            if not re.search(r"internal::(alloc|minialloc|directory)::.*::validate$", f.path):
+                continue
+            v = view(ctx, f)
+            pr = Prov(f)
+            for bb, c in sorted(v.calls.items()):
+                short = c.name.split("::")[-1]
+                if short in ("iter", "iter_mut", "into_iter") and c.term["args"] and re.search(tables, pr.operand(c.term["args"][0])) and "Iterator" not in c.name.split("::")[-2:-1]:
+                    n += 1
+                if short in ("skip", "take", "step_by", "filter", "skip_while", "take_while", "nth", "split_at", "chunks", "split_first", "split_last") and c.term["args"] and re.search(tables, pr.operand(c.term["args"][0])):
+                    res.fail(Finding(res.rule, "R-WHOLE/%s/%s" % (f.path, short), "%s walks %s through .%s(..): the elements left out are neither checked under strict validation nor repaired under permissive validation" % (f.path.split("::")[-1], re.search(tables, pr.operand(c.term["args"][0])).group(0)[6:], short), f, c.term["span"]))
+        res.floor("table iterations in validate functions", n, ctx.table("floors").get("whole_iters", 0))
         return res
     return run
